@@ -93,7 +93,7 @@ func init() {
 		ID:        "C16",
 		Level:     "model_checking",
 		Technique: "explicit enumeration of all derivation histories (append, seal, serialize/unmarshal) up to depth 4 (quick) / 6 (thorough) crossed with all small key-lookup tables, on the real code",
-		Rule:      "4 creation ids (absent, 0, 7, 2^32-1) x 4 creation option orders (with and without WithSymbols) x all 121 (quick) / 1093 (thorough) operation sequences over {Append, Seal, Serialize+Unmarshal} of length <= 4 / 6 (operations refused on a sealed token leave it unchanged and must return an error) x every key map of size <= 2 over {id, id+1, 0} -> {right key, wrong key} x default in {none, right, wrong}, plus WithSingularRootPublicKey. Oracle: RootKeyID() of every derived token equals the creation id; AuthorizerFor succeeds iff the table maps the token's id (the default when absent) to the right key; errors.Is(err, ErrNoPublicKeyAvailable) iff there is no entry. Non-trivial = history non-empty; distinct by construction. states = (id, history) pairs, transitions = operations executed.",
+		Rule:      "4 creation ids (absent, 0, 7, 2^32-1) x 4 creation option orders (with and without WithSymbols) x 2 passes (identifier read after every step / only at the end of the history) x all 121 (quick) / 1093 (thorough) operation sequences over {Append, Seal, Serialize+Unmarshal} of length <= 4 / 6 (operations refused on a sealed token leave it unchanged and must return an error) x every key map of size <= 2 over {id, id+1, 0} -> {right key, wrong key} x default in {none, right, wrong}, plus WithSingularRootPublicKey. Oracle: RootKeyID() of every derived token equals the creation id; AuthorizerFor succeeds iff the table maps the token's id (the default when absent) to the right key; errors.Is(err, ErrNoPublicKeyAvailable) iff there is no entry. Non-trivial = history non-empty; distinct by construction. states = (id, history) pairs, transitions = operations executed.",
 		Assume:    []string{"the expected lookup result is computed from the table by the statement's rule, not by the library"},
 		Spaces: func(c *sup.Ctx) []*sup.Space {
 			hists := c16Histories(sup.Pick(c, 4, 6))
@@ -103,8 +103,12 @@ func init() {
 			}
 			// how the token is created: the order of the builder options must not matter
 			creations := []string{"NewBuilder(WithRNG, WithRootKeyID)", "NewBuilder(WithRootKeyID, WithRNG)", "NewBuilder(WithRootKeyID, WithSymbols, WithRNG)", "NewBuilder(WithSymbols, WithRNG, WithRootKeyID)"}
-			size := int64(len(c16IDs) * len(hists) * len(creations))
+			// two passes: the identifier is read after every step, or only once the whole history has run
+			// (a token nobody looked at is derived from, as a service that only forwards tokens does)
+			size := int64(len(c16IDs)*len(hists)*len(creations)) * 2
 			return []*sup.Space{{Name: "histories-x-tables", Size: func(*sup.Ctx) int64 { return size }, Run: func(i int64, w *sup.W) {
+				quiet := i%2 == 1
+				i /= 2
 				creation := int(i) % len(creations)
 				i /= int64(len(creations))
 				id := c16IDs[int(i)%len(c16IDs)]
@@ -136,14 +140,19 @@ func init() {
 				hx.FillBuilder(b, poolP)
 				tok, err := b.Build()
 				human := func() string {
-					return fmt.Sprintf("id=%s history=%s.Build;%s", idStr(id), creations[creation], strings.Join(strings.Split(hist, ""), ";"))
+					return fmt.Sprintf("id=%s history=%s.Build;%s%s", idStr(id), creations[creation], strings.Join(strings.Split(hist, ""), ";"), map[bool]string{false: "", true: " (identifier read only at the end)"}[quiet])
 				}
 				if err != nil {
 					w.Class("build-error")
 					w.Violate("C16:build-failed", human(), err.Error(), "a token")
 					return
 				}
-				if got := tok.RootKeyID(); (got == nil) != (id == nil) || (got != nil && *got != *id) {
+				if got := func() *uint32 {
+					if quiet {
+						return id
+					}
+					return tok.RootKeyID()
+				}(); (got == nil) != (id == nil) || (got != nil && *got != *id) {
 					w.Class("id-lost")
 					w.Violate("C16:root-key-id-changed-by-build", human(), "RootKeyID()="+idStr(got)+" after Build", idStr(id))
 					return
@@ -211,6 +220,9 @@ func init() {
 						tok = nt
 					}
 					kept = append(kept, tok)
+					if quiet {
+						continue
+					}
 					got := tok.RootKeyID()
 					if (got == nil) != (id == nil) || (got != nil && *got != *id) {
 						w.Class("id-lost")
